@@ -49,6 +49,7 @@ type infeasible struct{}
 
 // Oblig is one proof obligation produced on one path.
 type Oblig struct {
+	Cover bool // reachability check: satisfiable (not valid) is the expected answer
 	Name string
 	Hyps []*smt.Term
 	Goal *smt.Term
@@ -76,6 +77,8 @@ type Exec struct {
 	recovering []*frame
 	Calls     []string // log of notable call events on this path (mint/burn/send sites etc.)
 	rowInvDone map[string]bool
+	opaqueSeen map[string]bool       // lazy collections read opaquely during the current spec evaluation
+	opaqueRedo map[string][]func()   // assumptions to re-evaluate when a collection is revealed
 	forceMemo map[*LazyV]Val
 	sliceMemo map[*LazyV]*SliceV
 	UsedContracts map[string]bool
@@ -420,8 +423,29 @@ func (ex *Exec) revealed(lz *LazyV) bool {
 	if _, ok := ex.sliceMemo[lz]; ok {
 		return true
 	}
-	_, ok := ex.lenChoice[lz.Nm.Sub("len").Leaf(smt.Int).String()]
+	key := lz.Nm.Sub("len").Leaf(smt.Int).String()
+	_, ok := ex.lenChoice[key]
+	if !ok && ex.opaqueSeen != nil {
+		ex.opaqueSeen[key] = true
+	}
 	return ok
+}
+
+// assumeSpec assumes the value of a specification evaluation and arranges for it to be
+// re-evaluated (and assumed again) when a collection it read opaquely is later revealed.
+func (ex *Exec) assumeSpec(eval func() *smt.Term) {
+	saved := ex.opaqueSeen
+	ex.opaqueSeen = map[string]bool{}
+	t := eval()
+	seen := ex.opaqueSeen
+	ex.opaqueSeen = saved
+	ex.assume(t)
+	for k := range seen {
+		if saved != nil {
+			saved[k] = true
+		}
+		ex.opaqueRedo[k] = append(ex.opaqueRedo[k], func() { ex.assumeSpec(eval) })
+	}
 }
 
 // forceSlice materialises a lazy slice with a bounded, forked length.
@@ -435,8 +459,19 @@ func (ex *Exec) forceSlice(v Val) *SliceV {
 		if r, ok := ex.sliceMemo[s]; ok {
 			return r
 		}
+		key := s.Nm.Sub("len").Leaf(smt.Int).String()
+		_, already := ex.lenChoice[key]
 		r := ex.forceSlice1(s)
 		ex.sliceMemo[s] = r
+		if !already {
+			// first reveal of this collection: assumptions that read it opaquely are
+			// re-evaluated so that they now speak about its elements
+			redo := ex.opaqueRedo[key]
+			delete(ex.opaqueRedo, key)
+			for _, f := range redo {
+				f()
+			}
+		}
 		return r
 	case *NilV:
 		return &SliceV{T: s.T}
